@@ -174,7 +174,14 @@ Definition dispatch (args : list bytes) : bytes :=
       match rest with
       | [s; e; st] =>
         let r := new_range (argz s) (argz e) (argz st) in
-        s2b "OK" ++ kz "rend" (ir_end r) ++ probe_blocks [r]
+        let n := ir_len r in
+        let vals := zrange (ir_min r - 2) (Z.to_nat (ir_max r - ir_min r + 5)) in
+        s2b "OK" ++ kz "rend" (ir_end r) ++ kz "rlen" n ++ kz "rmin" (ir_min r) ++ kz "rmax" (ir_max r) ++
+        kl "riter" (ir_iter r) ++
+        kv "rvalue" (join_with c_comma (map (fun i => optz (ir_value r i)) (zrange (-2) (Z.to_nat (n + 5))))) ++
+        kl "rindex" (map (ir_index r) vals) ++
+        kv "rhas" (map (fun v => if ir_contains r v then 49%nat else 48%nat) vals) ++
+        probe_blocks [r]
       | _ => s2b "BADARGS"
       end
     else if beq op (s2b "rs") then
